@@ -56,12 +56,15 @@ fn history<F: Function<Trace = VmTrace> + MathFunction>(r: &mut Rng, dags: &[Dag
     let mut tape_storage: Vec<F::TapeStorage> = vec![];
     let mut last_trace: Vec<Option<VmTrace>> = vec![None; slots.len()];
     let mut log: Vec<String> = vec![];
-    for step in 0..nsteps {
-        let k = r.below(slots.len());
+    // every history opens with "trace, then simplify" on each function in turn (so that the shared workspace has been through
+    // every function once), then goes on at random
+    let opening = 2 * slots.len();
+    for step in 0..nsteps + opening {
+        let k = if step < opening { step / 2 } else { r.below(slots.len()) };
         let d = &dags[slots[k].dag];
         let vs = &d.vs;
         let p: Vec<f32> = (0..nv(d)).map(|_| gen_tame(r)).collect();
-        let choice = r.below(8);
+        let choice = if step < opening { if step % 2 == 0 { r.below(2) } else { 4 } } else { r.below(8) };
         let res: Result<Option<String>, ()> = catch_unwind(AssertUnwindSafe(|| {
             match choice {
                 0 => { // point eval, reused evaluator, recycled tape storage
@@ -255,7 +258,22 @@ pub fn run(seed: u64, count: usize, outdir: &str) -> std::io::Result<i32> {
             let cfg = DagCfg { max_ops: *r.pick(&[4, 15, 50, 120]), max_outputs: *r.pick(&[1, 2, 5]), max_free_vars: *r.pick(&[0, 3]),
                 p_recent: 0.4, p_const_operand: 0.25, p_special_const: 0.05, choice_heavy: r.chance(0.7), no_hash: true,
                 const_roots: true, choice_chain: if r.chance(0.3) { 20 } else { 0 } };
-            gen_dag(&mut r, &cfg)
+            let mut d = gen_dag(&mut r, &cfg);
+            // half of the functions end in an operation with the SAME early node on both sides (by then spilled under a small
+            // register budget): a - a, a / a, atan2(a, a), compare(a, a), mod(a, a) are not folded away
+            if r.chance(0.5) {
+                use fidget_core::context::{BinaryOpcode, Node};
+                let a = Node::verif_new(r.below(d.ctx.len().min(4)));
+                let b = *r.pick(&[BinaryOpcode::Sub, BinaryOpcode::Div, BinaryOpcode::Atan, BinaryOpcode::Compare, BinaryOpcode::Mod]);
+                let n = apply_bin(&mut d.ctx, b, a, a);
+                let k = r.below(d.roots.len());
+                let root = d.roots[k];
+                // ... and the node is read once more at the very end: the allocator (which walks the tape backwards) has bound it,
+                // then evicted it while working through the rest, by the time it meets the equal-operand operation
+                let t1 = if r.chance(0.5) { d.ctx.add(root, n).unwrap() } else { d.ctx.add(n, root).unwrap() };
+                d.roots[k] = if r.chance(0.5) { d.ctx.add(t1, a).unwrap() } else { d.ctx.mul(a, t1).unwrap() };
+            }
+            d
         }).collect();
         let nsteps = r.range(5, 40);
         let before = st.fails.len();
